@@ -504,8 +504,12 @@ fn main() {
     let registry = ConverterRegistry::make_registry();
     let mut import_paths = Vec::new();
     let mut env_vars = BTreeMap::new();
-    for (var, val) in std::env::vars() {
-        env_vars.insert(var.into(), val.into());
+    // std::env::vars() panics on a variable that is not valid unicode. Such a
+    // variable can not be named or represented in UCG so it is left out.
+    for (var, val) in std::env::vars_os() {
+        if let (Ok(var), Ok(val)) = (var.into_string(), val.into_string()) {
+            env_vars.insert(var.into(), val.into());
+        }
     }
     let env = RefCell::new(Environment::new_with_vars(
         StdoutWrapper::new(),
